@@ -5,5 +5,5 @@ Require Import BinNums.
 Require Import XV.GenCont XV.ContVecDefs XV.ContMapDefs XV.ContStrDefs XV.ContDeqDefs XV.ContListDefs.
 Extraction "extracted/cont_model.ml"
   BinNums.positive BinNums.N BinNums.Z
-  vrun vstep vinit cur_vec set_cur vsize insert_fill_alias mrun new_map mkms
+  vrun vstep vinit cur_vec set_cur vsize mrun new_map mkms
   strun stinit drun new_deq mkds set_run grun ginit.
